@@ -135,4 +135,6 @@ def WF (cfg : Cfg) (f : Bytes) : Prop :=
   8 ≤ f.length ∧ lenField f = f.length ∧ (cfg.max > 0 → f.length ≤ cfg.max) ∧
   cfg.minLen ≤ f.length ∧ serveCheck cfg f = none
 
+instance (cfg : Cfg) (f : Bytes) : Decidable (WF cfg f) := by unfold WF; infer_instance
+
 end ErgoVerif.Stream
